@@ -294,7 +294,8 @@ impl SdJwtVc {
   ) -> Result<()> {
     self.verify_key_binding(jws_verifier, jwk)?;
 
-    if let Some(requirement) = self.required_key_bind() {
+    // The claims of the underlying `SdJwt` have been moved into `parsed_claims`: read the requirement from there.
+    if let Some(requirement) = self.claims().cnf.as_ref() {
       if self.key_binding_jwt().is_none() {
         return Err(Error::Validation(anyhow!(
           "a key binding was required but none was provided"
